@@ -366,6 +366,9 @@ def step (o : O) (line : String) : O × String :=
           return o
         finish o o1
       else finish o o
+    -- fault injection behind the persistence interfaces (harness/cmd/drive_broker/faultpe.go): the model is told the outcome —
+    -- a CONNECT that ran into the fault arrives here as a refused CONNECT (`conn <name> ~`), see vlib/props/c15.py `hint`
+    | "api", "failat" :: _ => finish o o
     | "release", [] => finish o (release o)
     | "lcev", [] => (o, s!"ev={showEvs o} subs={o.subs.eraseDups.length}")
     | "counts", [] => (o, s!"online={(o.conns.filter (·.st.registered)).length}")
